@@ -1127,7 +1127,9 @@ def corr_layout(chk, d, rng):
                 # the third component is padding (gdim = 2): never read
                 model = sorted(int(d.ask(f"(xindex {nodes} {r} {nd} {c})")) for nd in range(nodes) for c in range(2))
                 chk.case(kind="layout_x", key=mt[1])
-                if sens != model:
+                # a coordinate to which the quantity happens to be insensitive on this random cell (an exactly zero entry of the
+                # affine map) must not alarm: touched set ⊆ block, more than half of the block, nothing outside
+                if not (set(sens) <= set(model) and 2 * len(sens) > len(model)):
                     chk.disagree("macro layout of coordinate_dofs", {"restriction": mt[1], "impl_sensitive": sens, "model_block": model})
 
 
